@@ -26,7 +26,7 @@ ASSUMPTIONS = ["documented variable counts are the closed forms listed in C10.py
                "clauses inserted with check=False by user code are outside the statement; the library's own check=False insertions are watched"]
 REQUIRED = ["hook_clause_events", "hook_group_events", "final_scans", "documented_counts_checked", "chains_applied",
             "cli_entries", "opb_entries", "interleavings", "lib_entries", "builder_insertions", "cli_documented_counts_checked", "chains_after_interleaving",
-            "groups_on_a_reused_graph_object", "families_on_a_reused_graph_object", "lazy_batches_creating_variables"]
+            "groups_on_a_reused_graph_object", "families_on_a_reused_graph_object", "lazy_batches_creating_variables", "compressions_with_isolated_top_right_vertices"]
 CASE_TIMEOUT = {"quick": 300, "thorough": 1800}
 
 
@@ -840,9 +840,71 @@ def case_repo_tests(ctx):
     ctx.judged(("repo-tests",), nontrivial=True, sample={"repo_tests": data["events"]})
 
 
+def case_compression_counts(ctx, rseed, count):
+    """xor / majority variable compression through bipartite graphs whose highest right vertices (and some left ones)
+    have no neighbour: the result is documented to be over the R right-side variables -- exactly R are declared, used
+    by a clause or not -- every literal lies inside them and a variable created afterwards is R + 1.  Library call and
+    `-T xorcomp|majcomp` with a specification that leaves right vertices alone."""
+    import cnfgen as g
+    from cnfgen.formula.cnf import CNF
+    from cnfgen.graphs import BipartiteGraph
+    r = ctx.rng("c10comp", rseed)
+    for _ in range(count):
+        L = r.randint(1, 6)
+        R = r.randint(1, 9)
+        used = r.randint(0, R)                    # right vertices above `used` stay isolated
+        B = BipartiteGraph(L, R)
+        for u in range(1, L + 1):
+            if used and r.random() < 0.85:
+                for v in r.sample(range(1, used + 1), r.randint(1, min(used, 4))):
+                    B.add_edge(u, v)
+        F0 = CNF()
+        F0.update_variable_number(L)
+        for _c in range(r.randint(0, 5)):
+            F0.add_clause([r.choice([1, -1]) * v for v in r.sample(range(1, L + 1), r.randint(1, min(L, 3)))])
+        for fn in ("xor", "maj"):
+            label = "VariableCompression(CNF(%r over %d variables), bipartite %dx%d with edges %r, %r)" % (
+                [list(c) for c in F0], L, L, R, sorted(B.edges()), fn)
+            before = snapshot_events()
+            with alloc.watch() as mon:
+                st, T = ctx.call(g.VariableCompression, F0, B, fn)
+            account(ctx, before)
+            ctx.count("compression_counts_checked")
+            if st == "exc":
+                ctx.violation("compression:raises:%s" % type(T).__name__, "%s raised %r" % (label, T))
+                continue
+            report(ctx, label, mon, T)
+            if used < R:
+                ctx.count("compressions_with_isolated_top_right_vertices")
+            if T.number_of_variables() != R:
+                ctx.violation("count:compression(%s)" % fn, "%s declares %d variables, documented %d" % (label, T.number_of_variables(), R))
+            else:
+                nv = T.new_variable("after")
+                if nv != R + 1:
+                    ctx.violation("alloc:compression-next-variable", "%s: a variable created afterwards got identifier %d, expected %d" % (label, nv, R + 1))
+            ctx.judged(("compression-count", L, R, tuple(sorted(B.edges())), tuple(map(tuple, F0)), fn), nontrivial=True,
+                       sample={"entry": "VariableCompression %dx%d %s" % (L, R, fn), "declared": T.number_of_variables()})
+    # the command line spelling: glrd L R 1 over many more right vertices than edges
+    for kind in ("xorcomp", "majcomp"):
+        R = r.randint(12, 30)
+        argv = ["cnfgen", "-q", "--seed", str(r.randint(0, 999)), "and", "2", "1", "-T", kind, "glrd", "3", str(R), "1"]
+        from cnfgen.clitools.cnfgen import cli
+        st, T = ctx.call(cli, argv, mode="formula")
+        ctx.count("compression_counts_checked")
+        if st == "exc":
+            ctx.count("compression_cli_refused")
+            continue
+        ctx.count("compressions_with_isolated_top_right_vertices")
+        if T.number_of_variables() != R:
+            ctx.violation("count:compression(%s)" % kind, "`%s` declares %d variables, documented %d" % (" ".join(argv), T.number_of_variables(), R))
+        ctx.judged(("compression-count-cli", kind, R), nontrivial=True, sample={"entry": " ".join(argv)})
+
+
 def workload(tier, seed):
     q = tier == "quick"
     n = 62
+    for i in range(2 if q else 40):
+        yield "compression_counts", {"rseed": seed * 100 + i, "count": 40}
     yield "latex_declared_counts", {}
     # first: 2^20 clauses each, they run alongside everything else
     for via in ("tseitin", "add_parity", "xor") if q else ("tseitin", "add_parity", "xor", "tseitin22"):
